@@ -711,3 +711,63 @@ def addressing_program(h, w, zones=8):
             stmts.append(R.Action('set', [R.Operand('light', R.Str('A'))]))
         return (doms, stmts)
     return gen
+
+
+# ---------------------------------------------------------------- C19 -------
+PRINT_VALUES = [
+    lambda env: N(value=5), lambda env: N(value=2.5), lambda env: N(value=0), lambda env: R.Neg(N(value=3)),
+    lambda env: R.Str('abc'), lambda env: R.Str('two words'), lambda env: R.Reg('hue'), lambda env: R.Reg('kelvin'),
+    lambda env: R.Var('y'), lambda env: R.Var('s'), lambda env: R.Bin('+', R.Var('y'), N(value=1)),
+    lambda env: R.Bin('/', R.Var('y'), N(value=2)), lambda env: R.Bin('<', N(value=1), N(value=2)),
+    lambda env: R.Bin('and', N(value=1), N(value=0)), lambda env: R.CallE('twice', [N(value=4)]),
+]
+FIELDS = ['{}', '{:>5}', '{:<4}|', '{hue}', '{y}', '{s}', '{y:03d}', '{{x}}', 'txt ', '\\n', '{kelvin:>6}']
+
+
+def output_program():
+    def gen(ch):
+        env = Env(ch)
+        stmts = [R.SetReg('hue', N(value=120)), R.SetReg('saturation', N(value=50)), R.SetReg('kelvin', N(value=2000)),
+                 R.Assign('y', N(value=7)), R.Assign('s', R.Str('lamp')), R.Assign('x', env.num('val')),
+                 R.RoutineDef('twice', ['v'], [R.Return(R.Bin('*', R.Var('v'), N(value=2)))])]
+
+        def out_stmt(last):
+            k = ch.choose(5, [3, 3, 1, 3, 1])
+            if k == 0:
+                return [R.Print(ch.pick(PRINT_VALUES)(env))]
+            if k == 1:
+                return [R.Print(ch.pick(PRINT_VALUES)(env), ln=True)]
+            if k == 2:
+                return [R.Print(None, ln=True)]
+            if k == 3:
+                nf = 1 + ch.choose(4)
+                parts = [ch.pick(FIELDS) for _ in range(nf)]
+                if ch.flag(0.2):
+                    # numbered fields, each index once, in reverse order
+                    n = 2 + ch.choose(2)
+                    parts = ['{%d}' % i for i in reversed(range(n))]
+                if parts[0] == '\\n':
+                    parts[0] = 'a'
+                if parts[-1] == '\\n':
+                    parts[-1] = 'z'
+                fmt = ' '.join(parts) if ch.flag(0.7) else ''.join(parts)
+                nargs = sum(1 for p in parts if p.startswith('{') and not p.startswith('{{') and
+                            (p[1] in '}:' or p[1].isdigit()))
+                args = [ch.pick(PRINT_VALUES[:12])(env) for _ in range(nargs)]
+                # keep the line state unambiguous: printf is followed by an explicit line end
+                return [R.Printf(fmt, args), R.Print(None, ln=True)]
+            return [R.Action('on', [R.Operand('light', R.Str('A'))])]
+        n = 2 + ch.choose(4)
+        body = []
+        for i in range(n):
+            st = out_stmt(i == n - 1)
+            wrap = ch.choose(4, [5, 2, 1, 1])
+            if wrap == 1:
+                st = [R.If(R.Bin('>', R.Var('x'), env.num('val')), st, out_stmt(False) if ch.flag() else None)]
+            elif wrap == 2:
+                st = [R.Repeat('count', st, n=env.num('count2'))]
+            elif wrap == 3:
+                st = [R.Repeat('with', st + [R.Print(R.Var('i'))], var='i', a=N(value=1), b=N(value=2))]
+            body += st
+        return stmts + body
+    return gen
